@@ -9,7 +9,7 @@ claim('C01', 'other',
       'is out of reach of the VC generator and is covered only by a bounded run-time contract (is_valid(doc(w)) <=> w in L(m)) over two exhaustively enumerated, baselined '
       'scopes of models (nested group first / sibling first, 141 344 models) and all words up to length 5, plus families for wildcard and all-group leaves, references to substitution-group '
       'heads (multi-level, abstract members), group references with their own occurrence, and - for XSD 1.1 - element particles competing with wildcards (judged where the two readings of the '
-      'priority rule agree); all labelled bounded.',
+      'priority rule agree), xs:all groups with repeating particles and open content (interleave / suffix / default, each with its own counting or splitting oracle); all labelled bounded.',
       'Trusted: pyvc encoding, z3/cvc5, spec functions as a reading of XSD Structures 3.8/3.9; the bounded part proves nothing beyond its scope.',
       'DESIGN.md 5/C01')
 
@@ -41,7 +41,7 @@ claim('C14', 'other',
       'occurrences lies inside the other range, for any number of particles) are proved '
       'for all inputs. The group restriction checkers proper are out of reach and covered by a bounded contract on the real builder: accepted '
       'restriction => L(derived) subset of L(base) on all words <= 5, for 5 955 bases x <= 40 systematic candidates x 2 classes; facet pairs '
-      'and attribute-use pairs exhaustively over boundary catalogues.',
+      'and attribute-use pairs exhaustively over boundary catalogues; open content of a restriction against default / base open content (XSD 1.1).',
       'Trusted: the independent language matcher; words up to length 5. XSD 1.1 widening restrictions of the unchanged tree are listed in baseline/C14_instances.json.',
       'DESIGN.md 5/C14')
 
@@ -62,7 +62,7 @@ claim('C03', 'other',
       'is_namespace_allowed / is_matching is proved under C16. The per-attribute decision loop of XsdAttributeGroup.raw_decode is covered by a '
       'bounded run-time contract through the real API: is_valid <=> attrs_valid and decoded absent attributes = fixed (+ defaults iff enabled), '
       'over 13 034 configurations x name subsets x values (quick: one sixteenth, ~870 000 cases), and a run-time contract on the real method with a spy on the attribute decoders '
-      '(processed attributes = instance attributes + absent value-constrained ones, in validation-only and decoding contexts; decoded result under fill_missing / filler); '
+      '(the decision for ONE present attribute is also a statement contract discharged by the solver: declaration / XSI global / wildcard / rejected); (processed attributes = instance attributes + absent value-constrained ones, in validation-only and decoding contexts; decoded result under fill_missing / filler); '
       'wildcards of shared attribute groups intersected by several consumers (a copy never aliases the shared wildcard: run-time contract on XsdWildcard.__copy__).',
       'Trusted: the set-based reference attrs_valid; the corner "prohibited declaration that the wildcard admits" is outside the deciding scope (reported).',
       'DESIGN.md 5/C03')
@@ -122,7 +122,7 @@ claim('C12', 'proof',
       'XMLResource.access_control is proved for all strings: returning normally implies allowed(mode, url, base) with segment-wise containment for '
       'sandbox; only XMLResourceBlocked is raised; is_local_scheme and the local/remote classification are proved exact (exactly one class per URL-like string). '
       'Canonicalisation of spellings (normalize_url, urlsplit, pathlib) is assumed in the proof and exercised by an exhaustive bounded catalogue with an '
-      'audit hook: 5 modes x include/import/redefine/instance hint x 14 spellings, sandbox without an explicit base_url, dotted absolute file URLs, parse() on resource / document objects. XMLResource.get_url is proved to return normalize_url of the mapped location. Propagation obligations '
+      'audit hook: 5 modes x include/import/redefine/instance hint x 14 spellings, sandbox without an explicit base_url, dotted absolute file URLs, parse() on resource / document objects. the first block of XMLResource.__init__ is proved to leave a sandboxed resource with a base URL or to refuse it, whatever the source kind; XMLResource.get_url is proved to return normalize_url of the mapped location. Propagation obligations '
       '(the base URL of the referring schema reaches every load; get_arguments returns every Argument of the class hierarchy) are decided on the real AST / real objects.',
       'Proved: the decision kernel. Assumed: normalize_url canonicalises, no symlinks, every fetch goes through access_control (dominance is checked by the bounded catalogue, not proved).',
       'DESIGN.md 5/C12')
